@@ -20,6 +20,11 @@ package literal
 //@ spec def litText(t Int, v Any) String = frameText(valueText(v), typeName(t))
 //@ spec def noQuote(s String) Bool = !str_contains(s, "\"") && !str_prefixof("^^type:", s)
 
+// The literal a (trimmed) text denotes, when the parser accepts it: its type tag and its boxed value.
+//@ spec def parsedType(r String) Int = ite(litTypePart(r) == "bool", 0, ite(litTypePart(r) == "int64", 1, ite(litTypePart(r) == "float64", 2, ite(litTypePart(r) == "text", 3, 4))))
+//@ spec func parsedBlob(r String) Any
+//@ spec def parsedValue(r String) Any = ite(litTypePart(r) == "bool", box(parsebool(litValuePart(r)), "bool"), ite(litTypePart(r) == "int64", box(parseint(litValuePart(r)), "int64"), ite(litTypePart(r) == "float64", box(parsefloat(litValuePart(r)), "float64"), ite(litTypePart(r) == "text", box(litValuePart(r), "string"), parsedBlob(r)))))
+
 //@ props C15 C08 C05
 //@ func (t Type) String
 //@   heapfun
@@ -33,12 +38,16 @@ package literal
 
 // ToComparableString: numbers are printed zero-padded to 32 characters (fmt's %032d / %032f),
 // everything else as String does.
-//@ spec def cmpText(t Int, v Any) String = ite(t == 1, frameText(fmtany(v, "%032d"), "int64"), ite(t == 2, frameText(fmtany(v, "%032f"), "float64"), litText(t, v)))
+// (cmpText is a declared function; its definition is the axiom cmpText-def, which only the contract
+// of ToComparableString and the lemmas about the order of numbers unfold: everywhere else the
+// comparable text is just a function of type and value.)
+//@ spec func cmpText(t Int, v Any) String
 //@ props C12 C13 C08
+//@ axiom cmpText-def: forall t Int, v Any :: {cmpText(t, v)} cmpText(t, v) == ite(t == 1, frameText(fmtany(v, "%032d"), "int64"), ite(t == 2, frameText(fmtany(v, "%032f"), "float64"), litText(t, v)))
 //@ func (l *Literal) ToComparableString
 //@   heapfun
 //@   requires wfLit(l)
-//@   opt axioms type-strof
+//@   opt axioms type-strof cmpText-def
 //@   ensures[text] result == cmpText(l.t, l.v)
 
 //@ props C15 C08 C05
@@ -52,6 +61,7 @@ package literal
 //@   ensures[int64] litShape(trimspace(s)) && litTypePart(trimspace(s)) == "int64" ==> (result0 != nil) == parseintOK(litValuePart(trimspace(s))) && (result0 != nil ==> result0.t == Int64 && unbox(result0.v, "int64") == parseint(litValuePart(trimspace(s))))
 //@   ensures[float64] litShape(trimspace(s)) && litTypePart(trimspace(s)) == "float64" ==> (result0 != nil) == parsefloatOK(litValuePart(trimspace(s))) && (result0 != nil ==> result0.t == Float64 && unbox(result0.v, "float64") == parsefloat(litValuePart(trimspace(s))))
 //@   ensures[text] litShape(trimspace(s)) && litTypePart(trimspace(s)) == "text" ==> result0 != nil && result0.t == Text && unbox(result0.v, "string") == litValuePart(trimspace(s))
+//@   ensures[parsed@C13,C12,C08] result0 != nil && litTypePart(trimspace(s)) != "blob" ==> result0.t == parsedType(trimspace(s)) && result0.v == parsedValue(trimspace(s))
 
 //@ func (b *unboundBuilder) Build
 //@   opt replay-recv &unboundBuilder{}
@@ -65,11 +75,13 @@ package literal
 //@   requires b != nil
 //@   ensures[value-or-error] (result0 != nil && result1 == nil) || (result0 == nil && result1 != nil)
 //@   ensures[well-formed] result0 != nil ==> wfLit(result0)
+//@   ensures[parsed@C13,C12,C08] result0 != nil && litTypePart(trimspace(s)) != "blob" ==> result0.t == parsedType(trimspace(s)) && result0.v == parsedValue(trimspace(s))
 
 //@ func (b *boundedBuilder) Build
 //@   requires b != nil
 //@   ensures[value-or-error] (result0 != nil && result1 == nil) || (result0 == nil && result1 != nil)
 //@   ensures[well-formed] result0 != nil ==> wfLit(result0)
+//@   ensures[value@C13,C08] result0 != nil ==> result0.t == t && result0.v == v
 
 //@ func (l *Literal) Type
 //@   heapfun
@@ -105,12 +117,14 @@ package literal
 //@   pure
 //@   ensures[value-or-error] (result0 != nil && result1 == nil) || (result0 == nil && result1 != nil)
 //@   ensures[well-formed] result0 != nil ==> wfLit(result0)
+//@   ensures[parsed] result0 != nil && litTypePart(trimspace(s)) != "blob" ==> result0.t == parsedType(trimspace(s)) && result0.v == parsedValue(trimspace(s))
 
 //@ func (this Builder) Build
 //@   nobody
 //@   pure
 //@   ensures[value-or-error] (result0 != nil && result1 == nil) || (result0 == nil && result1 != nil)
 //@   ensures[well-formed] result0 != nil ==> wfLit(result0)
+//@   ensures[value] result0 != nil ==> result0.t == t && result0.v == v
 
 //@ func init#1
 //@   opt modifies-everything true
